@@ -268,11 +268,11 @@ SITES = [
      {"client == sender": ("isSender", "bool"), "client is sender": ("isSender", "bool"), "sender == client": ("isSender", "bool"), "sender is client": ("isSender", "bool"),
       "client != sender": ("(!isSender)", "bool"), "client is not sender": ("(!isSender)", "bool")}),
     # --- Buffer: a complete element that is not a message is skipped (C11, C12)
-    ("bufSkip", "indi/transport/buffer.py", "indi.transport.buffer", "Buffer.process", "if", ["not message", "end"],
+    ("bufSkip", "indi/transport/buffer.py", "indi.transport.buffer", "Buffer.process", "if", ["message", "end"],
      "fun (found : Bool) (e : Option Nat) =>", "Bool → Option Nat → Bool",
      {"message": ("found", "bool"), "end": ("e", "onat")}),
     # --- SwitchVector.apply_rule (C09)
-    ("switchTurnsOn", "indi/device/properties/instance/vectors.py", "indi.device.properties.instance.vectors", "SwitchVector.apply_rule", "if", ["new_value", "=="],
+    ("switchTurnsOn", "indi/device/properties/instance/vectors.py", "indi.device.properties.instance.vectors", "SwitchVector.apply_rule", "if", ["new_value"],
      "fun (v : Str) =>", "Str → Bool", {"new_value": ("v", "str")}),
     ("switchClearsOthers", "indi/device/properties/instance/vectors.py", "indi.device.properties.instance.vectors", "SwitchVector.apply_rule", "if", ["rule", "AT_MOST_ONE"],
      "fun (rule : Str) =>", "Str → Bool", {"*.rule": ("rule", "str")}),
@@ -302,7 +302,7 @@ SITES = [
 
 
 def translate_all(repo=REPO):
-    out, notes = [], {}
+    out, notes, all_terms = [], {}, {}
     for name, rel, modname, qual, kind, must, binder, ltype, env in SITES:
         term, why = None, None
         try:
@@ -310,6 +310,11 @@ def translate_all(repo=REPO):
             fn = find_function(ast.parse(src), qual)
             if fn is None:
                 raise Untranslatable("function %s not found" % qual)
+            import decision_shapes
+            recorded = decision_shapes.load().get(name)
+            if recorded is not None and decision_shapes.digest(fn) != recorded:
+                # restructured: one expression of it no longer is the whole decision (see tools/decision_shapes.py)
+                raise Untranslatable("the control-flow skeleton of %s differs from the one the site was curated for" % qual)
             cands = [c for c in candidates(fn, kind) if mentions(c, must)]
             if not cands:
                 raise Untranslatable("0 candidate expressions")
@@ -318,9 +323,10 @@ def translate_all(repo=REPO):
             for c in cands:
                 t, ty = Tr(env, module).tr(c)
                 results.append(Tr(env, module).as_bool(c) if ty != "bool" else t)
-            if len(set(results)) != 1:            # the same decision written at several places must read the same everywhere
-                raise Untranslatable("%d candidate expressions with different readings" % len(cands))
+            # the same decision may be written at several places (a loop and a comprehension): `<name>?` is the first
+            # reading, `<name>All` lists every reading - the theorems demand that ALL of them agree with the model
             term = results[0]
+            all_terms[name] = results
             notes[name] = ast.unparse(cands[0])
         except Untranslatable as e:
             why = str(e)
@@ -331,6 +337,8 @@ def translate_all(repo=REPO):
             out.append("def %s? : Option (%s) := none   -- %s" % (name, ltype, why.replace("\n", " ")[:200]))
         else:
             out.append("/-- `%s` in %s -/\ndef %s? : Option (%s) :=\n  some (%s %s)" % (notes[name].replace("-/", "- /"), qual, name, ltype, binder, term))
+        out.append("/-- every place where that decision is written in %s (empty when the translator did not follow the site) -/\ndef %sAll : List (%s) :=\n  [%s]"
+                   % (qual, name, ltype, ", ".join("(%s %s)" % (binder, x) for x in (all_terms.get(name) or []) if term is not None)))
     text = ("-- GENERATED by tools/extract_decisions.py from the working tree of the repository. Do not edit.\n"
             "import Indi.Model.Basic\nnamespace Indi.Generated\nopen Indi\n\n" + "\n\n".join(out) + "\n\nend Indi.Generated\n")
     return text, notes
